@@ -281,7 +281,7 @@ func (d *devWorld) poll(ch *kernel.Chooser) string {
 	// the dictated answers are demanded of clients that authenticate by Basic or are public: the device token
 	// endpoint of the Provider route reads no client_secret from the form, so POST-registered clients are refused
 	// there before the state is looked at (an interoperability limit, not a statement of C16)
-	if a := w.Store.Clients[m.client].Auth; a != oidc.AuthMethodBasic && a != oidc.AuthMethodNone {
+	if a := w.Store.Clients[m.client].Auth; a == oidc.AuthMethodPost || a == oidc.AuthMethodPrivateKeyJWT {
 		return desc
 	}
 	nearExpiry := now.Sub(m.expires) > -2*time.Second && now.Sub(m.expires) < 2*time.Second
